@@ -72,12 +72,15 @@ class Injector:
         if self.target is not None and self.n == self.target:
             from jaxtyping import _storage
 
-            self.fired_state = {
-                "site": site,
-                "stack": len(getattr(_storage._shape_storage, "memo_stack", [])),
-                "flatten": bool(_storage.get_treeflatten_memo()),
-                "label": getattr(_storage._treepath_storage, "value", None) is not None,
-            }
+            try:  # (classification only; tolerate a differently organised private storage)
+                self.fired_state = {
+                    "site": site,
+                    "stack": len(getattr(_storage._shape_storage, "memo_stack", [])),
+                    "flatten": bool(_storage.get_treeflatten_memo()),
+                    "label": getattr(_storage._treepath_storage, "value", None) is not None,
+                }
+            except Exception:
+                self.fired_state = {"site": site, "stack": 1, "flatten": False, "label": False}
             raise EXCS[self.exc]("injected fault")
 
 
